@@ -153,7 +153,7 @@ struct PropT : IProp {
         auto o = rm.template get_property<T, ET>(name);
         if (!o || p.size() == 0 || o->size() == 0) return false;
         T old = p[H(0)];
-        T v = Val<T>::make(r); for (int i = 0; i < 8 && Val<T>::repr(v) == Val<T>::repr((*o)[H(0)]); ++i) v = Val<T>::make(r);
+        T v = Val<T>::make(r); for (int i = 0; i < 64 && Val<T>::repr(v) == Val<T>::repr((*o)[H(0)]); ++i) v = Val<T>::make(r);   // (bool: 64 tries, a value that differs is found with certainty for all practical purposes)
         p[H(0)] = v;
         bool same = Val<T>::repr((*o)[H(0)]) == Val<T>::repr(v);
         p[H(0)] = old;
